@@ -10,6 +10,10 @@ c_Names2 == {"ix", "iy"}
 c_Ids2 == {"a", "b"}
 c_Ids3 == {"a", "b", "c"}
 c_Vecs2 == {"v1", "v2"}
+c_Acc1 == {1}
+c_Ids3g == {"a", "b", "g"}
+c_Vecs1b == {"v1", "vbad"}
+c_Vecs2b == {"v1", "v2", "vbad"}
 c_MKeys1 == {"k"}
 c_MVals2 == {"m1", "m2"}
 c_MVals1 == {"m1"}
